@@ -13,6 +13,7 @@ CONSTANTS
   Solve2Modes <- Solve2OK
   Progbars <- PbOn
   Progbar0Modes <- PbPinned
+  IntRepeatModes <- IrOK
   PrintCases = FALSE
 INVARIANT AcceptsAllowedTimes
 CHECK_DEADLOCK FALSE
